@@ -245,3 +245,9 @@ def c11_fma_product_underflow(site, w):
     if not site.endswith(":product_bits_below_smallest_subnormal") or not w.get("product_bits_below_smallest_subnormal"):
         return False
     return 1 < w.get("ulps", 10**9) <= 4
+
+
+def c09_shared_context_renaming(site, w):
+    """one Context printed for a second target: the second text equals the own-context text up to a consistent one-to-one renaming of identifiers
+    (names registered by the first rewrite are never released).  Anything that is not a pure renaming is not this mechanism."""
+    return site == "shared-context:text-depends-on-earlier-target" and w.get("only_local_names_renamed") is True
